@@ -2,25 +2,30 @@
 round by round in-process, with either scripted works (bookkeeping compared
 with lean/PxModel/Exec.lean) or the real HttpProtocolHandler works.
 
-API (see also the bottom of the file):
-
-    World(args=(), work_klass=None, **opts)   real LocalFdExecutor + DefaultSelector on a private loop;
-                                              descriptors < BASE are pinned open so the kernel's
-                                              lowest-free allocation starts at BASE in every process
-      .sockpair() -> (a, b)                   tracked, non-blocking socketpair (b has already sent 1 byte
-                                              to a when prime=True)
-      .tcp_pair() -> (a, b)                   tracked loopback TCP pair (for RST via SO_LINGER 0)
-      .queue(sock, addr)                      put a new connection on the executor's work queue
-      .round(ready=None, order=None)          one ex._run_once(); returns None or the escaping exception;
-                                              `ready` {fd: truth} restricts/reorders what select() reports
-      .reap()                                 ex._cleanup_inactive()
-      .snapshot() -> dict                     works / registered / selector map / open fds >= BASE / next fd
-      .state_line()                           the same in the canonical text form of the model driver
-      .close()                                closes every tracked socket, the selector, the loop, the pins
-    ScriptedWork                              Work subclass driven by world.beh[(round, work_id)]
-    RealWorld(World)                          real HttpProtocolHandler works: .client() -> Peer,
-                                              .plan_connect([...]) outcomes of new_socket_connection,
-                                              .upstreams (addr, Peer); Peer.send/recv_all/close/reset
+API
+    World(args=(), work_klass=None, pin=True, **opts)
+        real LocalFdExecutor + selectors.DefaultSelector on a private asyncio loop; with pin=True every
+        descriptor < BASE (200) is held open so that the kernel's lowest-free allocation starts at BASE
+        in every process (descriptor numbers are then reproducible and comparable with the model)
+      .sockpair(prime=True) -> (a, b)   tracked non-blocking socketpair; .tcp_pair() loopback TCP pair
+      .queue(sock, addr)                put a new connection on the executor's work queue
+      .round(ready=None)                one ex._run_once() (select with timeout 0); returns the escaping
+                                        exception or None; ready={fd: truth} filters / orders what select reports
+      .reap()                           ex._cleanup_inactive()
+      .snapshot() / .state_line() / .tasks_line()   works, registry, selector map, open fds >= BASE, next fd
+      .close_fd(fd), .truth(fd), .close()
+    scripted_world()                    World whose works are ScriptedWork: get_events / handle_events /
+                                        shutdown / initialize / is_inactive follow world.beh[(round, work_id)]
+    hist_impl / hist_model_lines / gen_hist     scripted histories (token language of lean/PxModel/DrvExec.lean)
+    sel_impl / sel_model_lines / gen_sel        selector + kernel sub-model against the real DefaultSelector
+    RealWorld(args, tcp=False, **opts)  real handlers; new_socket_connection patched: .plan outcomes
+                                        ('ok' | 'refused' | 'gaierror' | 'timeout' | 'unreach'), .up_faults;
+                                        .client(faults) -> Peer (send / drain / close / reset / shut_wr, .rx, .eof);
+                                        .upstreams [(addr, Peer)]; .leaked(); close() calls counted per socket
+    real_world(), good_script(role, i), gen_adversary, gen_real, run_real(case), run_repeat(case),
+    standalone_transcript(spec, tcp)    multi-connection scenarios (roles fwd fwdka post tun web404 webroute rev revka)
+    refine_real(case)                   same scenario with every handler call recorded as abstract `Beh` and
+                                        replayed on the model (returns 'ok' or the first disagreement)
 """
 import os
 import sys
